@@ -2,12 +2,18 @@
 
    UNIVERSAL: for every declaration list, the levels recorded by the symbol-table model are one per
    directive, in source order, with the associativity written (an earlier directive is a higher level).
+   UNIVERSAL TOO (Emerge/SpecLevels.v): the terminal handles of the levels are exactly the terminals written in the
+   directives, level by level and in the order written; and every production handle of a recorded level is one of the
+   grammar's own productions (a rule handle adds its productions to the grammar and contributes exactly those).
+   UNIVERSAL TOO (Emerge/SpecLevels.v): the terminal handles of the levels are exactly the terminals written in the
+   directives, level by level and in the order written; and every production handle of a recorded level is one of the
+   grammar's own productions (a rule handle adds its productions to the grammar and contributes exactly those).
    PER SPECIFICATION (kernel-evaluated): the handle SETS of every level equal the declarative reading
    (terminals as written; a rule handle contributes one production handle per alternative of its
    expansion) and every production handle is one of the grammar's own productions; and the levels equal
    those of spec.Parse. *)
 From Coq Require Import String List Bool NArith.
-From Verif Require Import Cfg.Ebnf Cfg.Translate Emerge.SpecModel Emerge.SpecWf Emerge.Pipeline.
+From Verif Require Import Cfg.Ebnf Cfg.Translate Emerge.SpecModel Emerge.SpecWf Emerge.SpecLevels Emerge.Pipeline.
 From VerifGen Require Import RuneGo.
 Import ListNotations.
 
@@ -15,6 +21,16 @@ Theorem levels_are_the_directives_in_order :
   forall ds, map fst (s_precs (translate_spec ds)) = flat_map assoc_of ds.
 Proof. intros ds. apply levels_in_source_order. Qed.
 Print Assumptions levels_are_the_directives_in_order.
+
+Theorem level_terminals_are_the_ones_written :
+  forall ds, map (fun lv => handle_terms (snd lv)) (s_precs (translate_spec ds)) = flat_map directive_terms ds.
+Proof. intros ds. exact (level_terminals_are_the_written_ones terminal_names predefs_s ds). Qed.
+Print Assumptions level_terminals_are_the_ones_written.
+
+Theorem every_production_handle_is_a_production_of_the_grammar :
+  forall ds lv A b, In lv (s_precs (translate_spec ds)) -> In (PHProd A b) (snd lv) -> In (A, b) (s_prods (translate_spec ds)).
+Proof. intros ds lv A b. exact (production_handles_are_productions terminal_names predefs_s ds lv A b). Qed.
+Print Assumptions every_production_handle_is_a_production_of_the_grammar.
 
 Fixpoint cp (s : string) : list N :=
   match s with EmptyString => [] | String a t => Ascii.N_of_ascii a :: cp t end.
